@@ -309,6 +309,9 @@ func runC04(c *eng.Ctx) {
 	c.Rule("R02.4", "K1")
 	ruleOffsetRequestFenced(c)
 
+	c.Rule("R04.2", "K1")
+	ruleOffsetProgressSignalsCommit(c)
+
 }
 
 // indexOfLoad returns the IndexAddr whose element v loads.
